@@ -41,6 +41,8 @@ pub struct Sets {
     pub user_ids: Mutex<HashSet<Vec<u8>>>,
     pub markers: Mutex<HashSet<Vec<u8>>>,
     pub pub_values: Mutex<HashSet<Vec<u8>>>,
+    /// public values that a rekey has replaced: no later public key may publish them again
+    pub retired: Mutex<HashSet<Vec<u8>>>,
 }
 
 impl Sets {
@@ -91,6 +93,8 @@ pub struct Inst {
     pub msk: Mutex<MasterSecretKey>,
     pub mpk: std::sync::RwLock<MasterPublicKey>,
     pub usk: UserSecretKey,
+    /// right -> public point currently published for it
+    pub current: Mutex<std::collections::HashMap<Vec<u8>, Vec<u8>>>,
 }
 
 pub fn instance(sets: &Sets) -> Result<Inst, Fail> {
@@ -109,7 +113,12 @@ pub fn instance(sets: &Sets) -> Result<Inst, Fail> {
     record_mpk(sets, &mpk, true)?;
     let usk = cc.generate_user_secret_key(&mut msk, &AccessPolicy::parse("SEC::TOP").unwrap()).map_err(e)?;
     record_usk(sets, &usk)?;
-    Ok(Inst { fixed: Mutex::new(None), snapshot: Mutex::new(None), cc, msk: Mutex::new(msk), mpk: std::sync::RwLock::new(mpk), usk })
+    let inst = Inst { fixed: Mutex::new(None), snapshot: Mutex::new(None), cc, msk: Mutex::new(msk), mpk: std::sync::RwLock::new(mpk), usk, current: Mutex::new(Default::default()) };
+    {
+        let mpk = inst.mpk.read().unwrap();
+        note_published(sets, &inst, &mpk, true)?;
+    }
+    Ok(inst)
 }
 
 fn record_usk(sets: &Sets, usk: &UserSecretKey) -> CheckResult {
@@ -138,6 +147,30 @@ fn record_mpk(sets: &Sets, mpk: &MasterPublicKey, first: bool) -> CheckResult {
         ins(&sets.pub_values, &k.h, "public-point-after-rekey")?;
         if k.hyb {
             ins(&sets.pub_values, &k.ek, "ml-kem-ek-after-rekey")?;
+        }
+    }
+    Ok(())
+}
+
+/// Bookkeeping of what is published: after a rekey (`rotated`) the values it replaced are
+/// retired; a public key returned by any other call (prune, update) must publish no retired value.
+fn note_published(sets: &Sets, inst: &Inst, mpk: &MasterPublicKey, rotated: bool) -> CheckResult {
+    let b = ser(mpk)?;
+    let w = WMpk::decode(&b).map_err(|e| Fail::new("codec-cannot-decode-mpk", e))?;
+    let mut cur = inst.current.lock().unwrap();
+    let mut retired = sets.retired.lock().unwrap();
+    for (r, k) in &w.keys {
+        if retired.contains(&k.h) {
+            return Err(Fail::new("retired-public-value-published-again", format!("a public key publishes {} again, a value that an earlier rekey had replaced", crate::wire::hex(&k.h[..k.h.len().min(16)]))));
+        }
+        if rotated {
+            if let Some(old) = cur.insert(r.clone(), k.h.clone()) {
+                if old != k.h {
+                    retired.insert(old);
+                }
+            }
+        } else {
+            cur.entry(r.clone()).or_insert_with(|| k.h.clone());
         }
     }
     Ok(())
@@ -273,6 +306,7 @@ pub fn one_call(inst: &Inst, sets: &Sets, kind: u8, ptx_len: u8, col: &Collector
             let mut msk = inst.msk.lock().unwrap();
             let _ = msk.access_structure.disable_attribute(&qa("DPT", "TMP"));
             let mpk = inst.cc.update_msk(&mut msk).map_err(|e| Fail::new("update-failed", short_err(&e)))?;
+            note_published(sets, inst, &mpk, false)?;
             *mpk_slot = mpk;
             drop(msk);
             col.class("calls:disable+update");
@@ -282,9 +316,14 @@ pub fn one_call(inst: &Inst, sets: &Sets, kind: u8, ptx_len: u8, col: &Collector
             let mut mpk_slot = inst.mpk.write().unwrap();
             let mut msk = inst.msk.lock().unwrap();
             let mpk = inst.cc.rekey(&mut msk, &ap).map_err(|e| Fail::new("rekey-failed", short_err(&e)))?;
-            // keep chains short, but let some histories hold several revisions
+            note_published(sets, inst, &mpk, true)?;
+            // keep chains short, but let some histories hold several revisions; the public key a
+            // prune returns publishes nothing that was retired
             if ptx_len % 2 == 0 {
-                let _ = inst.cc.prune_master_secret_key(&mut msk, &ap);
+                if let Ok(p) = inst.cc.prune_master_secret_key(&mut msk, &ap) {
+                    note_published(sets, inst, &p, false)?;
+                    col.class("calls:prune");
+                }
             }
             record_mpk(sets, &mpk, false)?;
             *mpk_slot = mpk;
@@ -422,7 +461,7 @@ pub fn run(ctx: &Ctx, col: &Collector) -> Meta {
 fn meta() -> Meta {
     Meta {
         level: "exploration",
-        rule: "generated workloads of 20-60 calls (encaps classic / hybridized, PKE encrypt, header generate, key generation, rekey '*', recaps of one fixed encapsulation, key generation by a restored backup of the master key, disabling of an otherwise unused attribute followed by an update) with identical arguments, run on one shared instance or on fresh instances, from 1-8 threads, followed by contention bursts (8 threads issuing the same kind of call at once on the shared instance) and with headers generated with and without authentication data; every returned secret, tag, trap, masked seed, ML-KEM ciphertext, AEAD nonce (PKE and header metadata), user-id marker vector and every public value published by a rekey is inserted in a run-wide set per kind and must be new; the header's encrypted metadata must not decrypt under the returned secret used as AES key while the authorized path succeeds. Non-trivial = each value compared; distinct_nontrivial counts the distinct tags, nonces, user ids and secrets".into(),
+        rule: "generated workloads of 20-60 calls (encaps classic / hybridized, PKE encrypt, header generate, key generation, rekey '*', recaps of one fixed encapsulation, key generation by a restored backup of the master key, disabling of an otherwise unused attribute followed by an update) with identical arguments, run on one shared instance or on fresh instances, from 1-8 threads, followed by contention bursts (8 threads issuing the same kind of call at once on the shared instance) and with headers generated with and without authentication data; every returned secret, tag, trap, masked seed, ML-KEM ciphertext, AEAD nonce (PKE and header metadata), user-id marker vector and every public value published by a rekey is inserted in a run-wide set per kind and must be new, and no public key returned by a later prune or update may publish a value that a rekey had replaced; the header's encrypted metadata must not decrypt under the returned secret used as AES key while the authorized path succeeds. Non-trivial = each value compared; distinct_nontrivial counts the distinct tags, nonces, user ids and secrets".into(),
         exhaustive: false,
         assumptions: vec!["detects reuse and low-entropy sources (constant, counter, per-call reseeding), not statistical bias".into()],
     }
